@@ -1,0 +1,32 @@
+//go:build verif
+
+package randdata
+
+// Contracts for the deductive verifier in /verif (govc). Comment-only file: with or without
+// the `verif` build tag it adds no declaration to the package.
+
+// ---------------------------------------------------------------- C15 (kernel)
+
+// the list of choices emitted for an enum has exactly one, non empty, entry per exported member
+// (`choices` is the local the emitted array literal is joined from)
+//@ func context.codeForEnum
+//@   props C15
+//@   requires ty != nil && (forall i int :: 0 <= i && i < len(ty.Members) ==> ty.Members[i].Const != nil && is(ty.Members[i].Const, *types.Const))
+//@   modifies *
+//@   ensures forall k int :: 0 <= k && k < len(choices) ==> choices[k] != ""
+//@   ensures forall k int :: 0 <= k && k < len(choices) ==> (exists i int :: 0 <= i && i < len(ty.Members) && ty.Members[i].Const.Exported() && choices[k] == fieldAt(types.ObjectString(ty.Members[i].Const, gen.NameRelativeTo(ctx.targetPackage)), 1))
+//@   ensures forall i int :: 0 <= i && i < len(ty.Members) && ty.Members[i].Const.Exported() ==> (exists k int :: 0 <= k && k < len(choices) && choices[k] == fieldAt(types.ObjectString(ty.Members[i].Const, gen.NameRelativeTo(ctx.targetPackage)), 1))
+//@   loop ty.Members.1 index n
+//@   loop ty.Members.1 invariant forall k int :: 0 <= k && k < len(choices) ==> choices[k] != ""
+//@   loop ty.Members.1 invariant forall k int :: 0 <= k && k < len(choices) ==> (exists i int :: 0 <= i && i < n && ty.Members[i].Const.Exported() && choices[k] == fieldAt(types.ObjectString(ty.Members[i].Const, gen.NameRelativeTo(ctx.targetPackage)), 1))
+//@   loop ty.Members.1 invariant forall i int :: 0 <= i && i < n && ty.Members[i].Const.Exported() ==> (exists k int :: 0 <= k && k < len(choices) && choices[k] == fieldAt(types.ObjectString(ty.Members[i].Const, gen.NameRelativeTo(ctx.targetPackage)), 1))
+//@   loop ty.Members.1 invariant isnil(choices) || (fresh(choices) && allocated(choices))
+
+// one generator call per member, in member order; the bound passed to rand.Intn is the number of entries and is positive
+//@ func context.codeForUnion
+//@   props C15
+//@   requires ty != nil && len(ty.Members) > 0
+//@   modifies *
+//@   ensures len(choix) == len(ty.Members) && len(ty.Members) > 0
+//@   loop ty.Members.1 index n
+//@   loop ty.Members.1 invariant len(choix) == n
